@@ -59,6 +59,19 @@ def setup_job(name, patch):
     src = os.path.join(VERIF, "work", "cli-target")
     if os.path.isdir(src):
         sh(f"mkdir -p {d}/work && cp -a --reflink=auto {src} {d}/work/cli-target")
+    # the exploration targets (fuzz/), against the changed crate as well
+    os.makedirs(f"{d}/fuzz")
+    for item in ("src", ".cargo", "Cargo.lock", "seeds_msg", "seeds_lines"):
+        sp = os.path.join(VERIF, "fuzz", item)
+        if os.path.isdir(sp):
+            shutil.copytree(sp, f"{d}/fuzz/{item}")
+        elif os.path.exists(sp):
+            shutil.copy(sp, f"{d}/fuzz/{item}")
+    toml = open(os.path.join(VERIF, "fuzz", "Cargo.toml")).read().replace('path = "/repo"', f'path = "{d}/repo"')
+    open(f"{d}/fuzz/Cargo.toml", "w").write(toml)
+    src = os.path.join(VERIF, "fuzz", "target", "fz")
+    if os.path.isdir(src):
+        sh(f"mkdir -p {d}/fuzz/target && cp -a --reflink=auto {src} {d}/fuzz/target/fz")
     return d, True
 
 
@@ -69,7 +82,7 @@ def teardown_job(d):
 
 
 def run_checks(d, checks):
-    env = dict(ENV, VERIF_REPO=f"{d}/repo", VERIF_HARNESS_DIR=f"{d}/harness", VERIF_WORK_DIR=f"{d}/work")
+    env = dict(ENV, VERIF_REPO=f"{d}/repo", VERIF_HARNESS_DIR=f"{d}/harness", VERIF_WORK_DIR=f"{d}/work", VERIF_FUZZ_DIR=f"{d}/fuzz")
     res = {}
     for c in checks:
         rc, o = sh(f"./check {c} --skip-lean 2>&1 | grep -E 'VIOLATION|status='", cwd=VERIF, env=env)
@@ -147,7 +160,8 @@ def job_seed(name, fresh=None):
         meta["ran"] = [{"cmd": f"./check {prop} (relocated copy, tools/pareval.py)", "output": ["VIOLATION" if prop in res else "no violation"]}]
     finally:
         teardown_job(d)
-    json.dump(meta, open(mp, "w"), indent=1)
+    if not os.environ.get("VERIF_ONLY_EXPLORE"):
+        json.dump(meta, open(mp, "w"), indent=1)
     conf = all(meta.get(k, True) for k in ("demo_passes_without_change", "existing_tests_pass_with_change", "demo_fails_with_change"))
     return f"{name}: {'confirmed' if conf else 'NOT-CONFIRMED'} detected_by={meta['detected_by']} missed_by={meta['missed_by']}"
 
